@@ -66,10 +66,10 @@ type Line struct{ b strings.Builder }
 
 func NewLine(id string) *Line { l := &Line{}; l.b.WriteString(id); return l }
 
-func (l *Line) Tok(s string) *Line  { l.b.WriteByte(' '); l.b.WriteString(s); return l }
-func (l *Line) Nat(n int) *Line     { return l.Tok(strconv.Itoa(n)) }
-func (l *Line) I64(n int64) *Line   { return l.Tok(strconv.FormatInt(n, 10)) }
-func (l *Line) Str(s string) *Line  { return l.Tok("h:" + hex.EncodeToString([]byte(s))) }
+func (l *Line) Tok(s string) *Line   { l.b.WriteByte(' '); l.b.WriteString(s); return l }
+func (l *Line) Nat(n int) *Line      { return l.Tok(strconv.Itoa(n)) }
+func (l *Line) I64(n int64) *Line    { return l.Tok(strconv.FormatInt(n, 10)) }
+func (l *Line) Str(s string) *Line   { return l.Tok("h:" + hex.EncodeToString([]byte(s))) }
 func (l *Line) Bytes(b []byte) *Line { return l.Tok("h:" + hex.EncodeToString(b)) }
 func (l *Line) Bool(b bool) *Line {
 	if b {
